@@ -108,6 +108,8 @@ type c16Env struct {
 	dials    int
 }
 
+func (e *c16Env) dialCount() int { e.mu.Lock(); defer e.mu.Unlock(); return e.dials }
+
 func (e *c16Env) dial(string) (net.Conn, error) {
 	e.mu.Lock()
 	spec := e.next
@@ -115,6 +117,11 @@ func (e *c16Env) dial(string) (net.Conn, error) {
 	e.dials++
 	e.mu.Unlock()
 	if spec.DialErr {
+		if e.dialCount()%2 == 0 {
+			// what a dialer written as `return net.DialUnix(...)` hands back on failure: a typed nil
+			var c *net.UnixConn
+			return c, errors.New("scripted: runtime unreachable")
+		}
 		return nil, errors.New("scripted: runtime unreachable")
 	}
 	a, b := net.Pipe()
@@ -439,15 +446,10 @@ func c16History(res *ev.Result, ops []string, tag string, hookDelay bool) {
 				x.viol("start-success-unconfigured", "Start ("+op+") returned success although the plugin was never configured")
 				return
 			}
-			if op == "start-early-configure-refused" {
-				// the configuration request of the failed session is still being handled by the plugin: let it
-				// finish (and report its result) before the history goes on
-				before := cfgBefore
-				for i := 0; i < 2000 && e.plug.cfgOK.Load() == before; i++ {
-					time.Sleep(time.Millisecond)
-				}
-				time.Sleep(20 * time.Millisecond)
-			}
+			// after "start-early-configure-refused" the configuration request of the failed session is still
+			// being handled by the plugin (150 ms) while the history goes on: its result belongs to that
+			// session and must not be taken for the configuration of the next one
+			_ = cfgBefore
 		case "stop":
 			if !x.timed("Stop", "stop", e.st.Stop) {
 				return
@@ -582,6 +584,8 @@ func runC16(c *ev.ChildEnv, res *ev.Result) {
 		{"start-silent", "start", "event"},
 		{"start-partial-sync", "start", "event"},
 		{"start-early-configure-refused", "pause", "start-slow", "event"},
+		{"start-early-configure-refused", "start-slow", "event"},
+		{"start-early-configure-refused", "start-early-configure-refused", "start-slow", "event", "pause", "event"},
 		{"start", "stop", "start-early-configure-refused", "start-early-configure-refused", "pause", "start-slow", "event", "pause", "event"},
 		{"start", "stop", "start-partial-sync", "start-partial-sync", "start", "event", "pause", "event"},
 		{"start", "start", "event", "stop", "stop", "wait"},
